@@ -1,11 +1,11 @@
 SPECIFICATION Spec
 CONSTANTS MaxDepth = 3
-  Families <- FamSim
+  Families <- FamShareQ
   StoreByCopy = TRUE
   TailKeepsSets = TRUE
   SplitContinues = TRUE
   SkipEmpty = TRUE
-  SkipGetters = TRUE
+  SkipGetters = FALSE
   SplitCachesExport = FALSE
   SrcFRepass = TRUE
   MFRunCopies = TRUE
